@@ -636,3 +636,155 @@ Proof.
 Qed.
 
 End Agree.
+
+(* ------------------------------------------------------------ back ends *)
+(* Two managers whose operations correspond under a map h of nodes (the
+   assumption about dd made explicit): every prefix string is accepted by
+   both, through either translator, with corresponding results. *)
+Section Hom.
+Variables D1 D2 : Type.
+Variables (t1 f1 : D1) (t2 f2 : D2).
+Variable var1 : string -> option D1.
+Variable var2 : string -> option D2.
+Variable node1 : Z -> option D1.
+Variable node2 : Z -> option D2.
+Variable a11 : D1 -> option D1.
+Variable a12 : D2 -> option D2.
+Variable a21 : binop -> D1 -> D1 -> option D1.
+Variable a22 : binop -> D2 -> D2 -> option D2.
+Variable h : D1 -> D2.
+Hypothesis h_true : h t1 = t2.
+Hypothesis h_false : h f1 = f2.
+Hypothesis h_var : forall s, var2 s = option_map h (var1 s).
+Hypothesis h_node : forall z, node2 z = option_map h (node1 z).
+Hypothesis h_ap1 : forall u, a12 (h u) = option_map h (a11 u).
+Hypothesis h_ap2 : forall op u v, a22 op (h u) (h v) = option_map h (a21 op u v).
+Hypothesis rename1_none : forall u v, a21 Rename u v = None.
+
+Local Notation P1 := (P D1 t1 f1 var1 node1 a11 a21).
+Local Notation P2 := (P D2 t2 f2 var2 node2 a12 a22).
+Local Notation Pfill1 := (Pfill D1 t1 f1 var1 node1 a11 a21).
+Local Notation Pfill2 := (Pfill D2 t2 f2 var2 node2 a12 a22).
+Local Notation xeval1 := (xeval D1 a11 a21).
+Local Notation xeval2 := (xeval D2 a12 a22).
+
+Fixpoint hx (x : sx D1) : sx D2 :=
+  match x with
+  | XV _ d => XV D2 (h d)
+  | X1 _ x => X1 D2 (hx x)
+  | X2 _ op x y => X2 D2 op (hx x) (hx y)
+  end.
+
+Lemma hx_eval : forall x, xeval2 (hx x) = option_map h (xeval1 x).
+Proof.
+  induction x as [d|x IH|op x IHx y IHy]; simpl.
+  - reflexivity.
+  - rewrite IH. destruct (xeval1 x); simpl; [apply h_ap1|reflexivity].
+  - rewrite IHx, IHy. destruct (xeval1 x); simpl; [|reflexivity].
+    destruct (xeval1 y); simpl; [apply h_ap2|reflexivity].
+Qed.
+
+Lemma h_num : forall z, num D2 t2 f2 node2 z = option_map h (num D1 t1 f1 node1 z).
+Proof.
+  intros [z|]; simpl; [|reflexivity].
+  destruct z as [|p|p]; simpl; try (rewrite h_false; reflexivity); try apply h_node.
+  destruct p; simpl; try apply h_node. rewrite h_true. reflexivity.
+Qed.
+
+Lemma h_reg : forall m z,
+  reg D2 (option_map (map h) m) z = option_map h (reg D1 m z).
+Proof.
+  intros [m|] [z|]; simpl; try reflexivity.
+  rewrite map_length. destruct ((0 <=? z)%Z && (z <? Z.of_nat (List.length m))%Z); [|reflexivity].
+  rewrite nth_error_map. reflexivity.
+Qed.
+
+Lemma h_last : forall m, last_opt D2 (map h m) = option_map h (last_opt D1 m).
+Proof.
+  intros m. unfold last_opt. rewrite <- map_rev. destruct (rev m); reflexivity.
+Qed.
+
+Lemma hom_forward :
+  (forall mem toks x rest, P1 mem toks x rest ->
+     P2 (option_map (map h) mem) toks (hx x) rest) /\
+  (forall n m toks m' rest, Pfill1 n m toks m' rest ->
+     Pfill2 n (map h m) toks (map h m') rest).
+Proof.
+  apply P_Pfill_ind.
+  - intros mem s r v V. constructor. rewrite h_var, V. reflexivity.
+  - intros mem z r v V. constructor. rewrite h_num, V. reflexivity.
+  - intros mem z r v V. constructor. rewrite h_reg, V. reflexivity.
+  - intros mem z r n m r1 v C PF IH L. simpl.
+    eapply P_buf; [exact C|exact IH|]. rewrite h_last, L. reflexivity.
+  - intros mem r x r1 Px IH. simpl. constructor. exact IH.
+  - intros mem op r x r1 y r2 Px IHx Py IHy. simpl. econstructor; eauto.
+  - intros m toks. constructor.
+  - intros n m toks x r1 s m' rest Px IHx Xs PF IHf.
+    econstructor; [exact IHx|rewrite hx_eval, Xs; reflexivity|].
+    rewrite map_app in IHf. exact IHf.
+Qed.
+
+Lemma omap_some : forall (A B : Type) (g : A -> B) o b,
+  option_map g o = Some b -> exists a, o = Some a /\ g a = b.
+Proof. intros A B g [a|] b H; simpl in H; [injection H as <-; eauto|discriminate]. Qed.
+
+Lemma hom_backward :
+  (forall mem2 toks x2 rest, P2 mem2 toks x2 rest ->
+     forall mem1, mem2 = option_map (map h) mem1 ->
+     exists x1, P1 mem1 toks x1 rest /\ hx x1 = x2) /\
+  (forall n m2 toks m2' rest, Pfill2 n m2 toks m2' rest ->
+     forall m1, m2 = map h m1 ->
+     exists m1', Pfill1 n m1 toks m1' rest /\ m2' = map h m1').
+Proof.
+  apply P_Pfill_ind.
+  - intros mem s r v V mem1 _. rewrite h_var in V.
+    destruct (omap_some _ _ _ _ _ V) as [v1 [V1 <-]].
+    exists (XV D1 v1). split; [constructor; exact V1|reflexivity].
+  - intros mem z r v V mem1 _. rewrite h_num in V.
+    destruct (omap_some _ _ _ _ _ V) as [v1 [V1 <-]].
+    exists (XV D1 v1). split; [constructor; exact V1|reflexivity].
+  - intros mem z r v V mem1 ->. rewrite h_reg in V.
+    destruct (omap_some _ _ _ _ _ V) as [v1 [V1 <-]].
+    exists (XV D1 v1). split; [constructor; exact V1|reflexivity].
+  - intros mem z r n m r1 v C PF IH L mem1 _.
+    destruct (IH [] eq_refl) as [m1' [PF1 ->]].
+    rewrite h_last in L. destruct (omap_some _ _ _ _ _ L) as [v1 [L1 <-]].
+    exists (XV D1 v1). split; [eapply P_buf; eauto|reflexivity].
+  - intros mem r x r1 Px IH mem1 E. destruct (IH mem1 E) as [x1 [P1' <-]].
+    exists (X1 D1 x1). split; [constructor; exact P1'|reflexivity].
+  - intros mem op r x r1 y r2 Px IHx Py IHy mem1 E.
+    destruct (IHx mem1 E) as [x1 [Px1 <-]]. destruct (IHy mem1 E) as [y1 [Py1 <-]].
+    exists (X2 D1 op x1 y1). split; [econstructor; eauto|reflexivity].
+  - intros m toks m1 ->. exists m1. split; [constructor|reflexivity].
+  - intros n m toks x r1 s m' rest Px IHx Xs PF IHf m1 ->.
+    destruct (IHx (Some m1) eq_refl) as [x1 [Px1 <-]].
+    rewrite hx_eval in Xs. destruct (omap_some _ _ _ _ _ Xs) as [s1 [Xs1 <-]].
+    destruct (IHf (m1 ++ [s1])%list) as [m1' [PF1 ->]]; [rewrite map_app; reflexivity|].
+    exists m1'. split; [econstructor; eauto|reflexivity].
+Qed.
+
+Theorem backend_independent : forall toks,
+  no_at toks ->
+  iter_add_expr D2 t2 f2 var2 node2 a12 a22 toks =
+  option_map h (rec_add_expr D1 t1 f1 var1 node1 a11 a21 (fun _ _ => None) toks).
+Proof.
+  intros toks NA.
+  destruct (rec_add_expr D1 t1 f1 var1 node1 a11 a21 (fun _ _ => None) toks) as [v1|] eqn:R.
+  - apply (rec_spec D1 t1 f1 var1 node1 a11 a21 (fun _ _ => None)
+             (fun _ _ => eq_refl) rename1_none toks v1 NA) in R.
+    destruct R as [x [Px Xv]]. simpl. apply iter_spec.
+    exists (hx x). split.
+    + apply (proj1 hom_forward None toks x [] Px).
+    + rewrite hx_eval, Xv. reflexivity.
+  - simpl.
+    destruct (iter_add_expr D2 t2 f2 var2 node2 a12 a22 toks) as [v2|] eqn:I; [|reflexivity].
+    apply iter_spec in I. destruct I as [x2 [Px2 Xv2]].
+    destruct (proj1 hom_backward None toks x2 [] Px2 None eq_refl) as [x1 [Px1 <-]].
+    rewrite hx_eval in Xv2. destruct (omap_some _ _ _ _ _ Xv2) as [v1 [Xv1 _]].
+    assert (rec_add_expr D1 t1 f1 var1 node1 a11 a21 (fun _ _ => None) toks = Some v1).
+    { apply (rec_spec D1 t1 f1 var1 node1 a11 a21 (fun _ _ => None)
+               (fun _ _ => eq_refl) rename1_none toks v1 NA).
+      exists x1. split; assumption. }
+    congruence.
+Qed.
+End Hom.
